@@ -51,8 +51,7 @@ struct S2 {
   std::int8_t k[2];
   P1 items[2];
   std::uint32_t m;
-  OptI32 o;
-  NOP_STRUCTURE(S2, k, (items, m), o);
+  NOP_STRUCTURE(S2, k, (items, m));
 };
 // integral logical buffer with a signed size member
 struct S3 {
@@ -130,17 +129,16 @@ struct Gen<P1> {
 template <>
 struct Fmt<S2> {
   static void enc(fmt::Out& o, const S2& v) {
-    fmt::enc_header(o, FMT_STU, 3);
+    fmt::enc_header(o, FMT_STU, 2);
     fmt::enc_header(o, FMT_BIN, 2);  // int8_t[2]: integral C array -> BIN
     fmt::put_raw(o, v.k[0]);
     fmt::put_raw(o, v.k[1]);
     fmt::enc_header(o, FMT_ARY, v.m);  // non-integral logical buffer -> ARY with element count
     for (std::size_t i = 0; i < 2; i++)
       if (i < v.m) Fmt<P1>::enc(o, v.items[i]);
-    Fmt<OptI32>::enc(o, v.o);
   }
   static bool dec(fmt::In& in, S2* v) {
-    if (!fmt::dec_header_fixed(in, FMT_STU, 3, nop::ErrorStatus::InvalidMemberCount)) return false;
+    if (!fmt::dec_header_fixed(in, FMT_STU, 2, nop::ErrorStatus::InvalidMemberCount)) return false;
     if (!fmt::dec_header_fixed(in, FMT_BIN, 2, nop::ErrorStatus::InvalidContainerLength)) return false;
     if (!fmt::get_raw(in, &v->k[0]) || !fmt::get_raw(in, &v->k[1])) return false;
     if (!fmt::expect_prefix(in, FMT_ARY)) return false;
@@ -150,7 +148,7 @@ struct Fmt<S2> {
     for (std::size_t i = 0; i < 2; i++)
       if (i < cnt && !Fmt<P1>::dec(in, &v->items[i])) return false;
     v->m = static_cast<std::uint32_t>(cnt);
-    return Fmt<OptI32>::dec(in, &v->o);
+    return true;
   }
 };
 template <>
@@ -162,10 +160,9 @@ struct Gen<S2> {
     Gen<P1>::make(&v->items[1]);
     v->m = nondet<std::uint32_t>();
     vt_assume(v->m <= 2);
-    Gen<OptI32>::make(&v->o);
   }
   static bool eq(const S2& a, const S2& b) {
-    bool r = a.k[0] == b.k[0] && a.k[1] == b.k[1] && a.m == b.m && Gen<OptI32>::eq(a.o, b.o);
+    bool r = a.k[0] == b.k[0] && a.k[1] == b.k[1] && a.m == b.m;
     for (std::size_t i = 0; i < 2; i++)
       if (i < a.m) r = r && Gen<P1>::eq(a.items[i], b.items[i]);
     return r;
@@ -247,7 +244,7 @@ VT_COMP(vt::ArrF32, arrf32, 14)
 VT_COMP(vt::PairT, pair, 14)
 VT_COMP(vt::TupleT, tuple, 11)
 VT_COMP(vt::S1, s1, 18)
-VT_COMP(vt::S2, s2, 24)
+VT_COMP(vt::S2, s2, 20)
 VT_COMP(vt::S3, s3, 12)
 VT_COMP(vt::V1, v1, 5)
 VT_COMP(vt::OptI32, opti32, 7)
